@@ -129,3 +129,46 @@ fn c07_2d_spsc_drain_then_disconnected() {
     let c: u8 = kani::any();
     assert!(q.send(c) == Err(c), "[C07.4-send-fails] after the receiver is gone send returns exactly the value");
 }
+
+static mut SPSC_Q: *const InnerQueue<u8> = std::ptr::null();
+static mut IS_EMPTY_CALLS: usize = 0;
+fn is_empty_checks_registration<T>(q: &Queue<T>) -> bool {
+    unsafe {
+        if !SPSC_Q.is_null() {
+            IS_EMPTY_CALLS += 1;
+            assert!(registered(&*SPSC_Q), "[C06.3-register-before-recheck] subscribe looks at the queue before the coroutine is registered: a send landing between that look and the registration wakes nobody");
+        }
+    }
+    q.len() == 0
+}
+
+//@ obligation: C06.3b
+//@ kind: K3
+//@ complete: yes
+//@ functions: spsc::Park::subscribe
+//@ statement: ordering inside the spsc subscribe: the coroutine is registered BEFORE the queue is re-checked, and the queue is re-checked at all
+#[kani::proof]
+#[kani::stub(crate::scheduler::get_scheduler, sup::get_scheduler_stub)]
+#[kani::stub(crate::scheduler::Scheduler::schedule, sup::schedule_stub)]
+#[kani::stub(crate::coroutine_impl::run_coroutine, sup::run_coroutine_stub)]
+#[kani::stub(<crate::park::Park as std::ops::Drop>::drop, sup::park_drop_noop)]
+#[kani::stub(may_queue::spsc::Queue::is_empty, is_empty_checks_registration)]
+#[kani::unwind(4)]
+fn c06_3b_spsc_subscribe_registers_before_recheck() {
+    sup::trace_reset();
+    sup::scheduler_reset();
+    let _h = sup::enter_coroutine();
+    let q: &'static InnerQueue<u8> = Box::leak(Box::new(InnerQueue::new()));
+    let mut co: CoroutineImpl = generator::shim_new_empty(0x1000);
+    co.set_local_data(unsafe { generator::ghost::CUR_LOCAL });
+    unsafe {
+        SPSC_Q = q;
+        IS_EMPTY_CALLS = 0;
+    }
+    let mut park = Park::new(q);
+    EventSource::subscribe(&mut park, co);
+    unsafe { SPSC_Q = std::ptr::null() };
+    assert!(unsafe { IS_EMPTY_CALLS } >= 1, "[C06.3-recheck-exists] subscribe must re-check the queue after registering");
+    std::mem::forget(park);
+    sup::leave_coroutine();
+}
